@@ -35,7 +35,12 @@ def run(pid, tier):
                       signature='geom:%s:%s:%s:%s' % (ev.get('op'), ev.get('kind'), ev.get('ft'), str(ev.get('res'))[:40]))
     o.samples.append({'kind': 'lattice proposal (scripted words -> real sampler -> TraceGeom)', 'event': json.loads(lines[700])})
     o.samples.append({'kind': 'random / adversarial stream event', 'event': json.loads(lines[-1])})
+    o.extra['edge_events'] = sum(1 for x in lines if '"op":"edge"' in x)
+    o.extra['img_events'] = sum(1 for x in lines if '"op":"img"' in x)
     o.assumptions = [
+        'acceptance region at FULL lattice resolution ("edge"): for 800 (thorough 6000) columns per sampler and float type the last accepted lattice index of the last coordinate is found by bisection and must satisfy '
+        'S + L^2 <= d^2 < S + (L+1)^2 in exact integers up to two lattice steps (rounding of the sum of squares in the float type); columns with |x| <= 0.98 only; monotone acceptance along the column is assumed by the bisection',
+        'documented image ("img"): UnitCircle / UnitSphere outputs against the documented formulas evaluated by the harness in the same float type from the lattice coordinates (declared transcription), 8 ordinals per component, incl. points within 2^-8 of the axes',
         'uniformity is decided structurally: uniform proposal (one rand Uniform(-1,1) draw per coordinate) + exact acceptance region + documented image; that the von Neumann map and '
         'Marsaglia\'s (1972) map push the uniform measure on the disc to the uniform measure on S^1 / S^2 are cited theorems about the documented algorithm, not checked here',
         'a sampler that draws its proposal differently (more or fewer words per iteration, rejection before the region test) is reported because the lattice accept/reject pattern no longer matches',
